@@ -330,7 +330,8 @@ def run_registered(ctx, case):
         sig = f"C20/registered/{k}/{step}"
         if wrap == "opt" and step.startswith("roundtrip-differs") and str(v) in ("null", "Null", "NULL", "~"):
             sig = "C20/F23/Optional-path-spelled-like-YAML-null-reads-back-as-None"
-        elif k == "Decimal" and step.startswith(("roundtrip-differs", "argv")) and decimal.Decimal(float(v)) != v:
+        elif k == "Decimal" and step.startswith(("roundtrip-differs", "argv")) and (decimal.Decimal(float(v)) != v or decimal.Decimal(repr(float(v))) != v):
+            # the float the serializer produces, or its text (what a command line / config carries), is not the Decimal
             sig = "C20/F19/Decimal-not-exactly-representable-as-binary-float-is-serialised-through-float"
         ctx.finding(sig, detail)
 
